@@ -77,7 +77,7 @@ def run(run, tier, seed):
                 "record over {A,N} x qualities {min-1,min,min+1} x 3 rules, iterator = declarative windows, replayed into "
                 "SplitKmer. traces: simulated read pairs (coverage 3-10, errors, N, both orientations, qualities at the "
                 "threshold, a quarter of the reads partly or wholly lower case), min-count 1..6, min-qual 0..40, 3 rules, all k, both strand modes, through `ska build -f` + "
-                "`ska nk`; TLC computes ReadPairs. non-trivial = a class exactly at min-count, one at min-count-1 and a "
+                "`ska nk`; TLC computes ReadPairs; one sample of > 10^5 distinct k-mers (quick) / 4x10^5 judged on counted totals. non-trivial = a class exactly at min-count, one at min-count-1 and a "
                 "quality exactly at the threshold; distinct by (reads, parameters)")
     run.assumptions = ["hash collisions of the counting filter cannot be forced in the real code; the 0.1% bound is a counted statistic",
                        "FASTQ files written by the driver are parsed by needletail as intended"]
@@ -144,9 +144,56 @@ def run(run, tier, seed):
                 run.nontriv([reads, quals, k, rc, minc, minq, rule])
         events.append(collision_case(tmp))
         run.evaluations += 1
+        events.append(big_sample(tmp, rng, 120000 if tier == "quick" else 400000))
+        run.evaluations += 1
+        run.nontriv(["big-sample", events[-1]["ctx"]["distinct"]])
     finally:
         shutil.rmtree(tmp, ignore_errors=True)
     validate(run, events, "c12", tier)
+
+
+def big_sample(tmp, rng, glen, k=31, minc=2):
+    """One sample with more than 10^5 distinct k-mers, almost all of them seen once (every window of a random sequence,
+    tiled by 150-base reads that overlap by k-1), a 3 kb stretch read twice: with --min-count 2 exactly the k-mers of that
+    stretch belong in the file; whatever else is there came in through the counting filter and must stay below 0.1 % of
+    the distinct k-mers of the sample."""
+    g = gen.rand_seq(rng, glen)
+    reads = [g[a:a + 150] for a in range(0, glen - k + 1, 150 - (k - 1))]
+    reads += [g[a:a + 150] for a in range(0, 3000, 150 - (k - 1))]
+    reads = [r for r in reads if len(r) >= k]
+    rng.shuffle(reads)
+    reads = [revcomp(r) if rng.random() < 0.5 else r for r in reads]
+    half = len(reads) // 2
+    f1, f2 = os.path.join(tmp, "big_1.fastq"), os.path.join(tmp, "big_2.fastq")
+    write_fastq(f1, reads[:half], ["I" * len(r) for r in reads[:half]])
+    write_fastq(f2, reads[half:], ["I" * len(r) for r in reads[half:]])
+    fl = os.path.join(tmp, "big.txt")
+    open(fl, "w").write("big\t%s\t%s\n" % (f1, f2))
+    out = os.path.join(tmp, "big")
+    count = {}
+    for r in reads:
+        for i in range(len(r) - k + 1):
+            w = r[i:i + k]
+            c = min(w, revcomp(w))
+            count[c] = count.get(c, 0) + 1
+    reached = {c for c, n in count.items() if n >= minc}
+    ctx = {"k": k, "rc": True, "minc": minc, "distinct": len(count), "reached": len(reached), "genome": glen, "reads": len(reads)}
+    rcode, so, se = vlib.ska_cli(["build", "-o", out, "-k", str(k), "-f", fl, "--min-count", str(minc), "--qual-filter", "no-filter"])
+    if rcode != 0:
+        return {"ev": "reads.stat", "ctx": ctx, "panic": se.decode(errors="replace")[-200:] or "exit", "kept_reached": 0, "kept_below": 0, "kept_unseen": 0}
+    rcode, so, se = vlib.ska_cli(["nk", "--full-info", out + ".skf"])
+    t = vlib.parse_nk(so.decode())
+    sets = {"A": "A", "C": "C", "G": "G", "T": "T", "R": "AG", "Y": "CT", "S": "CG", "W": "AT", "K": "GT", "M": "AC",
+            "B": "CGT", "D": "AGT", "H": "ACT", "V": "ACG", "N": "ACGT"}
+    h = (k - 1) // 2
+    kept = set()
+    for row in t["rows"]:
+        arms = "".join("ACTG"[d] for d in row[0])
+        for x in sets.get(chr(row[1][0]).upper(), ""):
+            w = arms[:h] + x + arms[h:]
+            kept.add(min(w, revcomp(w)))
+    return {"ev": "reads.stat", "ctx": ctx, "panic": "" if rcode == 0 else "nk failed", "kept_reached": len(kept & reached),
+            "kept_below": len([c for c in kept if c in count and c not in reached]), "kept_unseen": len([c for c in kept if c not in count])}
 
 
 # ---- known finding K12: a constructed full-hash (ntHash) collision ---------------------------
@@ -303,7 +350,9 @@ def validate(run, events, tag, tier):
         c = e["ctx"]
         run.fail({"kind": "trace", "event": e, "hash_collision": bool(c.get("hash_collision"))},
                  "reads event rejected: k=%s rc=%s min-count=%s min-qual=%s rule=%s" %
-                 (c["k"], c["rc"], c["minc"], c["minq"], c["rule"]))
+                 (c["k"], c["rc"], c["minc"], c.get("minq", "-"), c.get("rule", "none")) +
+                 ("" if e["ev"] != "reads.stat" else " | large sample: %d distinct, %d reached the count; file holds %d of those, %d below the count, %d never seen"
+                  % (c["distinct"], c["reached"], e["kept_reached"], e["kept_below"], e["kept_unseen"])))
     if seen and extras * 1000 >= seen:
         run.fail({"kind": "collisions", "extras": extras, "seen": seen},
                  "below-count k-mers entered the dictionary for %d of %d distinct entries (>= 0.1%%)" % (extras, seen))
@@ -320,6 +369,19 @@ def replay(run, path):
     if case.get("kind") != "trace":
         return
     c = case["event"]["ctx"]
+    if case["event"].get("ev") == "reads.stat":
+        # the large sample is re-generated from the seed (same generator, same order of draws is not needed: any such
+        # sample shows the same rate)
+        tmp = vlib.shm_dir("c12r")
+        try:
+            evs = [big_sample(tmp, random.Random(c["genome"]), c["genome"], k=c["k"], minc=c["minc"])]
+        finally:
+            shutil.rmtree(tmp, ignore_errors=True)
+        run.evaluations += 1
+        ok, bad, states = vlib.validate_trace("Trace_Reads", evs, "c12-replay", shards=1)
+        for i in bad:
+            run.fail({"kind": "trace", "event": evs[i]}, "large-sample statistic still violates the clauses on re-execution")
+        return
     tmp = vlib.shm_dir("c12r")
     try:
         dec = lambda L: ["".join(map(chr, x)) for x in L]
